@@ -801,6 +801,8 @@ pub struct Incentive {
     g_len: u64,
     g_snap_mode: u64,
     g_new_epoch: bool,
+    /// claim-cap boundary scenario: this actor claims next (its pending epochs were set to 99/100/101)
+    g_force_claim: Option<usize>,
 }
 
 fn sum_pos(o: &Obs) -> Option<u128> {
@@ -1460,14 +1462,15 @@ impl Incentive {
                                 qa[*a] += *v as i128;
                             }
                         }
-                        if unclaimed_epochs < 100 {
+                        if unclaimed_epochs <= 100 {
+                            mon.stat(match unclaimed_epochs { 99 => "claim_at_99_epochs", 100 => "claim_at_100_epochs", _ => "claim_below_99_epochs" });
                             mon.check("C13", "claim_eq_rewards_query", qa == paid, || format!("rewards query {:?} but claim paid {:?}", qa, paid));
                         } else {
                             mon.stat("claim_over_100_epochs");
                         }
                     }
                     Some(_) => {
-                        if unclaimed_epochs < 100 {
+                        if unclaimed_epochs <= 100 {
                             mon.check("C13", "claim_eq_rewards_query", false, || "rewards query failed immediately before a successful claim".into());
                         } else {
                             mon.stat("claim_over_100_epochs");
@@ -1594,6 +1597,24 @@ impl Incentive {
             self.g_time += rng.range(86_400, 40_000_000);
         }
         let mut new_epoch = false;
+        if let Some(u) = self.g_force_claim.take() {
+            return format!("{} {} {} claim", self.g_epoch, self.g_time, ACCTS[u]);
+        }
+        // the claim cap: land an actor's number of unclaimed epochs exactly on 99 / 100 / 101
+        if rng.chance(1, 25) {
+            if let Some(w) = self.w.as_ref() {
+                let u = 1 + rng.below(3) as usize;
+                let last = w.last_claim_ok.get(&u).cloned().unwrap_or(0);
+                let target = last + *rng.pick(&[99u64, 100, 100, 101]);
+                if target > self.g_epoch {
+                    self.g_epoch = target;
+                    self.g_new_epoch = true;
+                    self.g_force_claim = Some(u);
+                    // first make sure the epoch's snapshot placement is exercised as usual: a cheap op
+                    return format!("{} {} {} snapshot", self.g_epoch, self.g_time, ACCTS[1 + rng.below(3) as usize]);
+                }
+            }
+        }
         if rng.chance(7, 20) {
             self.g_epoch += match rng.below(30) {
                 0 => 2,
